@@ -40,7 +40,31 @@ theorem lockset_sound (f : FieldFacts) (hok : fieldOk f = true) (ts : List Threa
     (i j : Nat) (ti tj : Thread) (hi : ts[i]? = some ti) (hj : ts[j]? = some tj) (hij : i ≠ j)
     (a1 a2 : Access) (h1 : a1 ∈ live f) (h2 : a2 ∈ live f) (p1 : AtAccess ti a1) (p2 : AtAccess tj a2)
     (hconf : a1.write = true ∨ a2.write = true) : False := by
-  sorry
+  unfold fieldOk at hok
+  rw [Bool.or_eq_true] at hok
+  rcases hok with hro | hprot
+  · rw [List.all_eq_true] at hro
+    have r1 := hro a1 h1
+    have r2 := hro a2 h2
+    simp only [Bool.not_eq_true'] at r1 r2
+    rcases hconf with h | h
+    · rw [h] at r1; cases r1
+    · rw [h] at r2; cases r2
+  · rw [List.any_eq_true] at hprot
+    obtain ⟨h, _, hp⟩ := hprot
+    obtain ⟨k1, hk1, hl1, hw1⟩ := protects_mem hp h1
+    obtain ⟨k2, hk2, hl2, hw2⟩ := protects_mem hp h2
+    obtain ⟨k1', hk1', hl1', hw1'⟩ := p1 k1 hk1
+    obtain ⟨k2', hk2', hl2', hw2'⟩ := p2 k2 hk2
+    have hsame : k1'.lock = k2'.lock := by rw [hl1', hl2', hl1, hl2]
+    obtain ⟨e1, e2⟩ := hex i j ti tj hi hj hij k1' hk1' k2' hk2' hsame
+    rcases hconf with hc | hc
+    · rcases hw1 with hw | hw
+      · rw [hw1' hw] at e1; cases e1
+      · rw [hc] at hw; cases hw
+    · rcases hw2 with hw | hw
+      · rw [hw2' hw] at e2; cases e2
+      · rw [hc] at hw; cases hw
 
 /-! ### (2) acyclic lock order ⇒ no deadlock -/
 
@@ -55,7 +79,13 @@ theorem ordered_locks_no_deadlock (edges : List (String × String)) (hok : lockO
     (bs : List Blocked) (hne : bs ≠ [])
     (hedges : ∀ b ∈ bs, ∀ h ∈ b.holds, (h, b.wants) ∈ edges)
     (hheld : ∀ b ∈ bs, ∃ b' ∈ bs, b.wants ∈ b'.holds) : False := by
-  sorry
+  obtain ⟨b, hb, hmax⟩ :=
+    exists_max (fun b : Blocked => rankOf edges (edges.length + 1) b.wants) bs hne
+  obtain ⟨b', hb', hin⟩ := hheld b hb
+  have hedge := hedges b' hb' b.wants hin
+  have hlt := lockOrderOk_edge hok hedge
+  have hle := hmax b' hb'
+  omega
 
 /-! ### (3) per-setting atomicity -/
 open CM.Conc.Cfg in
@@ -63,14 +93,18 @@ open CM.Conc.Cfg in
 theorem old_or_new (old new : Int) (sched : List Actor) :
     (run 1 (init old new) sched).loads = [] ∨ (run 1 (init old new) sched).loads = [old] ∨
     (run 1 (init old new) sched).loads = [new] := by
-  sorry
+  have hinit : Inv1 old new (init old new) := ⟨Or.inl rfl, rfl, Or.inl rfl⟩
+  exact (inv1_run sched hinit).2.2
 
 open CM.Conc.Cfg in
 /-- hence the throttle decision of a call racing a limit change is the decision under the old or under the new limit -/
 theorem throttle_old_or_new (old new count : Int) (sched : List Actor) (b : Bool)
     (h : rejectOnce count (run 1 (init old new) sched).loads = some b) :
     b = decide (old ≥ 0 ∧ count > old) ∨ b = decide (new ≥ 0 ∧ count > new) := by
-  sorry
+  rcases old_or_new old new sched with h0 | h0 | h0
+  · rw [h0] at h; simp [rejectOnce] at h
+  · rw [h0] at h; simp only [rejectOnce, Option.some.injEq] at h; exact Or.inl h.symm
+  · rw [h0] at h; simp only [rejectOnce, Option.some.injEq] at h; exact Or.inr h.symm
 
 open CM.Conc.Cfg in
 /-- the legacy shape (two loads) is NOT atomic: limit 5 → -1 between the loads rejects a first call that both
@@ -78,6 +112,6 @@ open CM.Conc.Cfg in
 theorem double_read_witness :
     rejectTwice 1 (run 2 (init 5 (-1)) [.load, .store, .load]).loads = some true ∧
     decide ((5 : Int) ≥ 0 ∧ (1 : Int) > 5) = false ∧ decide ((-1 : Int) ≥ 0 ∧ (1 : Int) > -1) = false := by
-  sorry
+  decide
 
 end CM.Props.C11
